@@ -507,6 +507,12 @@ def execute(history, opts=None):
                 shared = set(mutable_ids(o)) & set(mutable_ids(d))
                 if shared:
                     ctx.vio(step, "K4", "shared/%s" % tname(o), "deepcopy", "copy shares %d mutable sub-objects" % len(shared), {"of": op["i"]})
+                # the == asked by K4 is itself a query: bracket it (K1)
+                after2 = _snaps(W)
+                for v in [i for i in after if after[i] != after2[i]]:
+                    role = "operand_a" if v == op["id"] else ("operand_b" if v == op["i"] else "bystander")
+                    ctx.vio(step, "K1", "eq/%sx%s/%s" % (tname(d), tname(o), role), "eq", "query changed %s (%s)" % (v, tname(W.get(v))), {"a": op["id"], "b": op["i"], "victim": v})
+                after = after2
             snaps = after
             ctx.event(step, kind, out)
         elif kind == "MUTATE":
